@@ -24,6 +24,9 @@ import IrisVerif.Lemmas.ADRules
 import IrisVerif.Lemmas.ADMaps
 import IrisVerif.Lemmas.ADSystem
 import Mathlib.Analysis.Calculus.FDeriv.Prod
+import Mathlib.Analysis.Calculus.Deriv.Prod
+import Mathlib.Analysis.Calculus.Deriv.Comp
+import Mathlib.LinearAlgebra.Pi
 
 namespace IrisVerif.C02
 open IrisVerif.AD IrisVerif.Gen
@@ -1141,6 +1144,78 @@ theorem adColumn_getElem (base : Nat → Int → ℝ) (logly : Nat → Bool) (ex
   rw [h]
   simp [hk]
 
+/-- **ONE end-to-end statement for the model's own `systemAB`** (rules → walk → seeds → stacked output → offsets → static map →
+    assembly), hypotheses on the inputs only: duplicate-free wrt-lists and an admissible point. If the system is assembled at all (no equation
+    rejected), then for every transition equation `i` and every wrt-token `τ = wrt_i[k]` that is in the transition vector, the entry of `A` in
+    row `i` and in the column of `τ` is the partial derivative of equation `i`'s residual with respect to `τ` (its logarithm for a log-variable) -/
+theorem systemAB_A_entry_sound (base : Nat → Int → ℝ) (logly : Nat → Bool) (ext : Fn1 → ℝ → ℝ)
+    (eqs : List (Expr ℝ × List Token)) (tv : List Token) (A B : Nat → Nat → ℝ)
+    (h : systemAB base logly ext eqs tv 0 = some (A, B)) (hnd : ∀ p ∈ eqs, p.2.Nodup)
+    (i : Nat) (hi : i < eqs.length) (k : Nat) (hk : k < eqs[i].2.length) (hc : eqs[i].2[k] ∈ tv)
+    (hadm : Admissible ⟨base, seedSystem eqs[i].2 k, logly, ext⟩ eqs[i].1) :
+    HasDerivAt (fun u => eval ⟨perturb base logly (seedSystem eqs[i].2 k) u, seedSystem eqs[i].2 k, logly, ext⟩ eqs[i].1)
+      (A i ((tv.map some).idxOf (some eqs[i].2[k]))) 0 := by
+  unfold systemAB at h
+  cases hcol : (adColumn base logly ext eqs).mapM id with
+  | none => rw [hcol] at h; simp at h
+  | some col =>
+    cases hoffs : rhsOffsets (eqs.map (fun p => p.2.length)) with
+    | none => rw [hcol, hoffs] at h; simp at h
+    | some offs =>
+      rw [hcol, hoffs] at h
+      simp only [Option.pure_def, Option.bind_eq_bind, Option.bind_some, Option.some.injEq, Prod.mk.injEq] at h
+      obtain ⟨hA, _⟩ := h
+      have hcol' := mapM_id_eq_some _ _ hcol
+      -- the offsets
+      have hoffs' : offs = offsetsFrom 0 (eqs.map (fun p => p.2.length)) := by
+        unfold rhsOffsets at hoffs
+        split at hoffs
+        · simp at hoffs
+        · simpa using hoffs.symm
+      have hlen : offs.length = eqs.length := by rw [hoffs', offsetsFrom_length]; simp
+      have hoff_i : offs[i]'(by omega) = ((eqs.take i).map (fun p => p.2.length)).sum := by
+        have := offsetsFrom_getElem (eqs.map (fun p => p.2.length)) 0 i (by simpa using hi)
+        rw [← hoffs', List.getElem?_eq_getElem (by omega)] at this
+        simp only [Option.some.injEq, Nat.zero_add, ← List.map_take] at this
+        exact this
+      let t := (eqs.map (·.2)).zip offs
+      have htlen : t.length = eqs.length := by simp [t, hlen]
+      have hti : ∀ j (hj : j < eqs.length), t[j]'(by omega) = (eqs[j].2, offs[j]'(by omega)) := by
+        intro j hj; simp [t]
+      let es : Nat → Expr ℝ := fun j => if hj : j < eqs.length then eqs[j].1 else .const 0
+      let td : Nat → Nat → ℝ := fun r _ => col.getD r 0
+      have key := systemize_entry_sound base logly ext (tv.map some) t es td
+        (by
+          intro p hp
+          obtain ⟨j, hj, rfl⟩ := List.getElem_of_mem hp
+          rw [hti j (by omega)]
+          exact hnd _ (List.getElem_mem (by omega)))
+        (by
+          intro j hj k' hk'
+          have hj' : j < eqs.length := by omega
+          rw [hti j hj'] at hk' ⊢
+          simp only [es, hj', dite_true, td]
+          have hoff_j : offs[j]'(by omega) = ((eqs.take j).map (fun p => p.2.length)).sum := by
+            have := offsetsFrom_getElem (eqs.map (fun p => p.2.length)) 0 j (by simpa using hj')
+            rw [← hoffs', List.getElem?_eq_getElem (by omega)] at this
+            simp only [Option.some.injEq, Nat.zero_add, ← List.map_take] at this
+            exact this
+          have h1 := adColumn_getElem base logly ext eqs j hj' k' hk'
+          rw [hcol', List.getElem?_map] at h1
+          rw [hoff_j]
+          cases hget : col[((eqs.take j).map (fun p => p.2.length)).sum + k']? with
+          | none => rw [hget] at h1; simp at h1
+          | some d =>
+            rw [hget] at h1
+            simp only [Option.map_some, Option.some.injEq] at h1
+            simp only [List.getD_eq_getElem?_getD, hget, Option.getD_some]
+            exact h1.symm)
+        i (by omega) k (by simp only [hti i hi]; exact hk) (by simp only [hti i hi]; simpa using hc)
+        (by simp only [hti i hi, es, hi, dite_true]; exact hadm)
+      rw [← hA]
+      simp only [hti i hi, es, hi, dite_true] at key
+      exact key
+
 /-- **the set of cells a map can ever fill is structural**: whatever the evaluation point (whatever `td`), a cell whose assembled value
     differs from the initial one is addressed by an entry of the map — the pattern depends on the incidence, not on the values; a value that
     happens to be exactly 0 at one point does not remove the cell -/
@@ -1405,6 +1480,30 @@ theorem sepQuad_hasDerivAt (cs : List (ℝ × ℝ)) (gs : List (ℝ → ℝ)) (a
         simp [sepQuadDiff]
         ring
 
+/-- **the n-ary rule for an ARBITRARY differentiable user function** (exactness class): for `f : ℝⁿ → ℝ` with Fréchet derivative `f'` at the
+    argument values, the walk's `Σ_k quotient_k · d_k` is the derivative of `x ↦ f(g_1 x, …, g_n x)` as soon as every two-sided quotient
+    equals the corresponding partial derivative `f'(e_k)` — e.g. whenever `f` is a polynomial of degree ≤ 2 in each argument separately
+    (`centralDiff_exact_quadratic`); in general quotient `k` differs from `f'(e_k)` by the third-order term of `f` in argument `k` times
+    `eps_k²/6` (`centralDiff_cubic` is the extremal case), so the walk is off by `Σ_k (that term) · d_k` -/
+theorem userCallFin_sound_of_exact {n : ℕ} (f : (Fin n → ℝ) → ℝ) (f' : (Fin n → ℝ) →L[ℝ] ℝ) (g : Fin n → ℝ → ℝ)
+    (v d eps : Fin n → ℝ) (x : ℝ) (hg : ∀ k, Rep (v k) (d k) (g k) x) (hf : HasFDerivAt f f' v)
+    (hq : ∀ k, centralDiff (fun y => f (Function.update v k y)) (v k) (eps k) = f' (fun j => if k = j then 1 else 0)) :
+    HasDerivAt (fun y => f (fun k => g k y))
+      (∑ k, centralDiff (fun y => f (Function.update v k y)) (v k) (eps k) * d k) x := by
+  have hG : HasDerivAt (fun y => (fun k => g k y)) d x := hasDerivAt_pi.mpr (fun k => (hg k).der)
+  have hv : (fun k => g k x) = v := funext (fun k => (hg k).val)
+  have hf' : HasFDerivAt f f' ((fun y => (fun k => g k y)) x) := by
+    show HasFDerivAt f f' (fun k => g k x)
+    rw [hv]; exact hf
+  have h := hf'.comp_hasDerivAt x hG
+  refine h.congr_deriv ?_
+  have := LinearMap.pi_apply_eq_sum_univ (f'.toLinearMap) d
+  simp only [ContinuousLinearMap.coe_coe, smul_eq_mul] at this
+  rw [this]
+  refine Finset.sum_congr rfl (fun k _ => ?_)
+  rw [hq k]
+  ring
+
 /-! ### non-vacuity: the hypotheses are met by concrete non-trivial values -/
 
 /-- `x * y + log x` at `x = 2` (a log-variable), `y = 3`, system seed in the direction of `x`:
@@ -1419,6 +1518,46 @@ example :
   · simp [Admissible, adEval, bind, Except.bind, binop, BinOp.dunder, has_mul, res_mul, applyAA_mul, binGuard, fn1Guard]
   · simp [UsesSqrt]
   · simp [UsesMaximum]
+
+/-- … and the conclusion is reached on that instance: the walk succeeds and what it returns is the derivative along the seed
+    (`∂/∂ log x` of `x·y + log x` at `x = 2`, `y = 3`) -/
+example :
+    let e : Expr ℝ := .bin .add (.bin .mul (.tok 0 0) (.tok 1 0)) (.call1 .log (.tok 0 0))
+    let base : Nat → Int → ℝ := fun q _ => if q = 0 then 2 else 3
+    let seed : Nat → Int → ℝ := seedSystem [(0, 0), (1, 0)] 0
+    let logly : Nat → Bool := fun q => q = 0
+    ∃ v d, adEquation ⟨base, seed, logly, fun _ x => x⟩ e = .ok (.atom v d) ∧
+      HasDerivAt (fun u => eval ⟨perturb base logly seed u, seed, logly, fun _ x => x⟩ e) d 0 := by
+  intro e base seed logly
+  have hadm : Admissible ⟨base, seed, logly, fun _ x => x⟩ e := by
+    simp [e, base, Admissible, adEval, bind, Except.bind, binop, BinOp.dunder, has_mul, res_mul, applyAA_mul, binGuard, fn1Guard]
+  rcases differentiated_correctly_or_rejected_unconditional base seed logly (fun _ x => x) e hadm with ⟨err, herr⟩ | ⟨v, d, h, _, hd⟩
+  · exfalso
+    simp [e, adEquation, adEval, bind, Except.bind, binop, BinOp.dunder, has_mul, has_add, res_mul, res_add, applyAA_mul, applyAA_add,
+      call1, Fn1.name, has_log] at herr
+  · exact ⟨v, d, h, hd⟩
+
+/-- `userCallFin_sound_of_exact` is not vacuous: every LINEAR user function of two arguments meets its hypotheses (its quotients are exact) -/
+example (f' : (Fin 2 → ℝ) →L[ℝ] ℝ) (v d : Fin 2 → ℝ) (x : ℝ) :
+    HasDerivAt (fun y => f' (fun k => v k + d k * (y - x)))
+      (∑ k, centralDiff (fun y => f' (Function.update v k y)) (v k) 1 * d k) x := by
+  refine userCallFin_sound_of_exact (fun w => f' w) f' (fun k y => v k + d k * (y - x)) v d (fun _ => 1) x
+    (fun k => rep_affine (v k) (d k) x) f'.hasFDerivAt ?_
+  intro k
+  have key : ∀ y, Function.update v k y = v + (y - v k) • (fun j => if k = j then (1 : ℝ) else 0) := by
+    intro y
+    funext j
+    by_cases h : j = k
+    · subst h; simp
+    · simp [Function.update, h, Ne.symm h]
+  simp only [centralDiff, key, map_add, map_smul, smul_eq_mul]
+  push_cast
+  ring
+
+/-- a rejected tree: `2 ** x` ends in `TypeError`, and `adEval_error_is_typeError` says no tree ends in anything else -/
+example : adEval (⟨fun _ _ => 1, fun _ _ => 0, fun _ => false, fun _ x => x⟩ : Ctx ℝ) (.bin .pow (.const 2) (.tok 0 0))
+    = .error .typeError := by
+  simp [adEval, bind, Except.bind, binop, BinOp.rdunder, no_rpow]
 
 example : Rep 3 1 (fun y => 3 + 1 * (y - 7)) 7 := rep_affine 3 1 7
 
